@@ -2,6 +2,7 @@
 package c13
 
 import (
+	"bytes"
 	"context"
 	"fmt"
 	"os"
@@ -34,6 +35,7 @@ const (
 	OLen
 	OSearch
 	OYield
+	OReload // single writer only: the snapshot install of a replica (Save, then Load of the bytes), readers keep running
 )
 
 type Op struct {
@@ -70,7 +72,12 @@ func genCase(t *rapid.T) Case {
 		nr = 2
 	}
 	wop := rapid.Custom(func(t *rapid.T) Op {
-		k := rapid.SampledFrom([]int{OInsert, OInsert, OInsert, ORemove, ORemove, OGet, OLen, OSearch, OYield}).Draw(t, "k")
+		kinds := []int{OInsert, OInsert, OInsert, ORemove, ORemove, OGet, OLen, OSearch, OYield}
+		if single {
+			// the server's single writer (the raft apply loop) also installs snapshots into the index it serves reads from
+			kinds = append(kinds, OReload)
+		}
+		k := rapid.SampledFrom(kinds).Draw(t, "k")
 		return Op{K: k, Id: rapid.IntRange(0, c.NIds-1).Draw(t, "id"), Q: rapid.IntRange(0, 7).Draw(t, "q"), KK: rapid.SampledFrom([]int{1, 2, 5, 20}).Draw(t, "kk"), L: gen.Level().Draw(t, "l")}
 	})
 	rop := rapid.Custom(func(t *rapid.T) Op {
@@ -289,6 +296,13 @@ func runProgram(c Case, pin bool, o *pbt.Obs) *pbt.Failure {
 						e.call = tick()
 						e.res, e.err = idx.Search(context.Background(), amath.Vector(query(op.Q)), uint(op.KK))
 						e.ret = tick()
+					case OReload:
+						e.call = tick()
+						var buf bytes.Buffer
+						if e.err = idx.Save(&buf, false); e.err == nil {
+							e.err = idx.Load(&buf, false)
+						}
+						e.ret = tick()
 					case OYield:
 						runtime.Gosched()
 						return
@@ -358,6 +372,10 @@ func runProgram(c Case, pin bool, o *pbt.Obs) *pbt.Failure {
 				return pbt.Failf("C13:remove-error", "Remove(#%d) returned %v", e.op.Id, e.err)
 			}
 			hist = append(hist, porcupine.Operation{ClientId: e.client + 1, Input: setIn{ORemove, e.op.Id, 0}, Call: e.call, Output: setOut{ok: e.err == nil}, Return: e.ret})
+		case OReload:
+			if e.err != nil {
+				return pbt.Failf("C13:reload-error", "Save followed by Load of the bytes returned %v", e.err)
+			}
 		case OGet:
 			out := setOut{ok: e.err == nil}
 			if e.err == nil {
@@ -520,6 +538,14 @@ func check(c Case, o *pbt.Obs) *pbt.Failure {
 	if len(c.Prefill) == 0 {
 		o.Label("from-empty")
 	}
+	for _, prog := range c.Writers {
+		for _, op := range prog {
+			if op.K == OReload {
+				o.Label("snapshot-install-while-readers-run")
+				break
+			}
+		}
+	}
 	regime := "many-writers"
 	if len(c.Writers) == 1 {
 		regime = "single-writer"
@@ -565,7 +591,7 @@ func check(c Case, o *pbt.Obs) *pbt.Failure {
 func TestConcurrentIndex(t *testing.T) {
 	pbt.Run(t, pbt.Prop[Case]{
 		ID: "C13", Name: "TestConcurrentIndex",
-		Rule: "rapid-generated concurrent programs on a fresh index.Hnsw (race-detector build): 1 writer (two thirds of the cases) or 2-6 writers plus 0-6 readers, each a list of 4-40 Insert/Remove/Get/Len/Search/yield ops over a pool of 2-6 shared ids, every (id,version) with a unique vector, GOMAXPROCS in {2,4,16}, each program run 1-4 times; oracles: no new race report in the GORACE log while the program ran, no panic, no deadlock (20 s watchdog with index frames in the dump), per-id insert/remove/get outcomes linearizable as a set (porcupine), every search item corresponds to a version that may have been live during the search with exactly its score, and at quiescence Len == retrievable ids == stored vertices, structural invariants hold and searches satisfy C01's predicate; non-trivial = >=2 goroutines touch the same id and one of them writes it; distinct = distinct case JSON",
+		Rule: "rapid-generated concurrent programs on a fresh index.Hnsw (race-detector build): 1 writer (two thirds of the cases) or 2-6 writers plus 0-6 readers, each a list of 4-40 Insert/Remove/Get/Len/Search/yield ops (the single writer additionally installs snapshots: Save then Load of the bytes, as a replica's apply loop does while it serves reads) over a pool of 2-6 shared ids, every (id,version) with a unique vector, GOMAXPROCS in {2,4,16}, each program run 1-4 times; oracles: no new race report in the GORACE log while the program ran, no panic, no deadlock (20 s watchdog with index frames in the dump), per-id insert/remove/get outcomes linearizable as a set (porcupine), every search item corresponds to a version that may have been live during the search with exactly its score, and at quiescence Len == retrievable ids == stored vertices, structural invariants hold and searches satisfy C01's predicate; non-trivial = >=2 goroutines touch the same id and one of them writes it; distinct = distinct case JSON",
 		Gen:     genCase,
 		Check:   check,
 		Journal: true,
